@@ -50,7 +50,8 @@ struct Ctx {
             if (w[0] == "g") { n = std::stoul(w[1]); m = std::stoul(w[2]); for (std::size_t i = 0; i < n; i++) add_vertex(g); }
             else if (w[0] == "e") {
                 auto e = add_edge(std::stoul(w[1]), std::stoul(w[2]), g).first;
-                put(edge_weight, g, e, (W) std::ldexp((double) std::stoll(w[3]), (int) -scale));
+                if (c.kind == "exactf") put(edge_weight, g, e, (W) std::strtod(w[3].c_str(), nullptr));   // arbitrary (inexact) doubles
+                else put(edge_weight, g, e, (W) std::ldexp((double) std::stoll(w[3]), (int) -scale));
                 put(edge_index, g, e, edges.size());
                 edges.push_back(e);
             }
@@ -148,6 +149,7 @@ void do_exact(Ctx<W> &x, const std::string &variant) {
     shim_end(variant == "signed_tbb");
     for (auto &c : cycles) x.print_cycle("cycle", c);
     std::cout << "ret " << x.scaled(ret) << " " << (x.exact(ret) ? 1 : 0) << "\n";
+    { char buf[64]; snprintf(buf, sizeof buf, "%.17g", (double) ret); std::cout << "retf " << buf << "\n"; }
 }
 
 template<class W>
@@ -271,7 +273,7 @@ void run_case(const CaseIn &c) {
     x.echo(c);
     if (c.kind == "forest") do_forest(x);
     else if (c.kind == "fvs") do_fvs(x);
-    else if (c.kind == "exact") { shim_begin(c, 3); do_exact(x, c.args.at(2)); }
+    else if (c.kind == "exact" || c.kind == "exactf") { shim_begin(c, 3); do_exact(x, c.args.at(2)); }
     else if (c.kind == "trees") do_trees(x);
     else if (c.kind == "cands") do_cands(x, c.args.at(2));
     else if (c.kind == "spanner") do_spanner(x, std::stoul(c.args.at(2)));
